@@ -1,4 +1,4 @@
-use crate::{builtins::TZ_PROVIDER, TemporalError, TemporalResult, PlainDate, PlainTime};
+use crate::{builtins::TZ_PROVIDER, TemporalResult, PlainDate, PlainTime};
 
 impl PlainDate {
 
@@ -10,7 +10,8 @@ impl PlainDate {
     ) -> TemporalResult<crate::ZonedDateTime> {
         let provider = TZ_PROVIDER
             .lock()
-            .map_err(|_| TemporalError::general("Unable to acquire lock"))?;
+            // NOTE: A panic in an earlier call poisons the lock; the provider is still usable.
+            .unwrap_or_else(std::sync::PoisonError::into_inner);
         self.to_zoned_date_time_with_provider(time_zone, plain_time, &*provider)
     }
 }
